@@ -67,7 +67,9 @@ def ensure_coq():
 def hygiene():
     """Forbidden constructs anywhere in the development (comments stripped)."""
     bad = []
-    for f in sorted(glob.glob(os.path.join(COQ, "theories", "**", "*.v"), recursive=True)):
+    listed = [l.strip() for l in open(os.path.join(COQ, "_CoqProject")) if l.strip().endswith(".v")]
+    for rel in listed:
+        f = os.path.join(COQ, rel)
         src = open(f, errors="replace").read()
         # strip (nested) comments
         out, depth, i = [], 0, 0
@@ -210,7 +212,7 @@ def finish(pid, tier, seed, t0, proof, parts, level_text, trusted, assumptions, 
     nontrivial = sum(p.nontrivial for p in parts)
     samples = []
     for p in parts:
-        samples += p.samples[:3]
+        samples += [s if not isinstance(s, str) or len(s) < 600 else s[:600] + " ..." for s in p.samples[:3]]
     cov = dict(
         obligations=len(proof["theorems"]) if proof else 0,
         discharged=(proof["closed"] if proof and proof["ok"] else (proof["closed"] if proof else 0)),
